@@ -137,4 +137,33 @@ theorem same_as_caller_buffer (lfo : LineFnOf) (ai ae : Inst) (text : Str)
 example : ∃ a', checkLenOrResize createInternal 6001 = .ok a' ∧ a'.bufLen = 12020 := by
   refine ⟨_, rfl, by decide⟩
 
+/-- **room at ANY position**: on a library-managed buffer the room check grows the buffer by as many quanta as the position needs —
+    also when `asm_set_offset` has moved the position far beyond the current length (fix 4022683) — and keeps every earlier byte -/
+theorem internal_room_anywhere (a : Inst) (p : Nat) (h : a.external = false) (hinv : a.bufLen = (a.mem.length : Int)) (hp : p < 2 ^ 31) :
+    ∃ a', checkLenOrResize a p = .ok a' ∧ a'.external = false ∧ (p : Int) + 20 ≤ a'.bufLen ∧
+      a'.bufLen = (a'.mem.length : Int) ∧ a'.mem.take a.mem.length = a.mem := by
+  unfold checkLenOrResize
+  rw [toInt32_small hp]
+  have h20 : (c_BUFFER_TOLERANCE : Int) = 20 := rfl
+  by_cases hc : ((p : Int) + (c_BUFFER_TOLERANCE : Int) > a.bufLen)
+  · simp only [hc, if_true, h, Bool.false_eq_true, if_false]
+    refine ⟨_, rfl, rfl, ?_, ?_, ?_⟩
+    · show (p : Int) + 20 ≤ a.bufLen + ((growBytes a p : Nat) : Int)
+      unfold growBytes
+      rw [toInt32_small hp, h20]
+      have h6 : c_MEM_BUFFER = 6000 := rfl
+      rw [h6]
+      rw [h20] at hc
+      omega
+    · show a.bufLen + ((growBytes a p : Nat) : Int) = ((a.mem ++ List.replicate (growBytes a p) 0).length : Int)
+      simp only [List.length_append, List.length_replicate, hinv]
+      omega
+    · simp
+  · simp only [hc, if_false]
+    refine ⟨a, rfl, h, ?_, hinv, by simp⟩
+    rw [h20] at hc
+    omega
+
+example : growBytes { (createInternal) with bufLen := 6020 } 13000 = 12000 := by decide
+
 end AL.Properties.C08
